@@ -13,7 +13,7 @@ from cpverif.props import c01
 LEVEL = "exploration"
 RULE = (
     "field declarations drawn from per-type rule grammars (Integer: rule ranges / length only / neither / both; Decimal: "
-    "ranges with 0-4 fraction digits under the four separator conventions; Choice/Constant: quoted and bare items; "
+    "ranges with 0-4 fraction digits under the four separator conventions (every third such field has judged a cell before its data format got the separators); Choice/Constant: quoted and bare items; "
     "DateTime: random orderings of DD MM YYYY YY hh mm ss with separators; Pattern: globs with * ? [..] [!..]; RegEx: a "
     "generated subset; Text) x data formats delimited/fixed/excel/ods x cells rendered from the rule (every range "
     "boundary, every choice, valid dates incl. 29 Feb) and single mutations of accepted cells (+-1 beyond a limit, "
@@ -31,6 +31,28 @@ ASSUMPTIONS = [
 
 FORMATS = ["delimited", "fixed", "excel", "ods"]
 SEP_CONVENTIONS = [(".", ""), (".", ","), (",", "."), (",", "")]
+
+
+LATE_NOTE = "the field validated one cell before its data format got these separators"
+
+
+def make_late_format(ctx, prop, kind, dec, ths, type_name, empty, length, rule, first_cell, mon):
+    """(format, field) where the field exists - and has judged one cell - before the data format gets its separators:
+    the separators that count are the data format's when a cell is judged, not the ones at the field's first use."""
+    from cutplace import data
+
+    fmt = data.DataFormat(kind)
+    field = construct(ctx, prop, type_name, empty, length, rule, fmt)
+    if field is None:
+        return fmt, None
+    feed(field, [first_cell], mon, [True])
+    if ths:
+        fmt.set_property(data.KEY_THOUSANDS_SEPARATOR, ths)
+    if dec != ".":
+        fmt.set_property(data.KEY_DECIMAL_SEPARATOR, dec)
+    fmt.validate()
+    field._cpverif_note = LATE_NOTE
+    return fmt, field
 
 
 def make_format(kind, dec=".", ths="", allowed=None, complete=True):
@@ -665,7 +687,11 @@ def run(ctx):
         fmt = fmt_cache[key]
         length, rule, cells, flags = gen_declaration(ctx, rng, type_name, kind, dec, ths)
         empty = rng.random() < 0.3 and type_name != "Constant"
-        field = construct(ctx, "C02", type_name, empty, length, rule, fmt)
+        if type_name == "Decimal" and (dec, ths) != (".", "") and i % 3 == 0 and cells:
+            fmt, field = make_late_format(ctx, "C02", kind, dec, ths, type_name, empty, length, rule, cells[0], mon)
+            ctx.count("decimal-fields-used-before-the-separators-were-set")
+        else:
+            field = construct(ctx, "C02", type_name, empty, length, rule, fmt)
         if field is None:
             continue
         feed(field, cells, mon, flags)
@@ -702,7 +728,10 @@ def replay(ctx, case):
     f = case.get("format", "delimited")
     if isinstance(f, str):
         f = {"kind": f, "dec": ".", "ths": ""}
-    fmt = make_format(f["kind"], f.get("dec", "."), f.get("ths", ""), case.get("allowed"))
-    field = construct(ctx, "C02", decl["type"], decl["empty"], decl["length"], decl["rule"], fmt)
+    if case.get("note") == LATE_NOTE:
+        fmt, field = make_late_format(ctx, "C02", f["kind"], f.get("dec", "."), f.get("ths", ""), decl["type"], decl["empty"], decl["length"], decl["rule"], "1", mon)
+    else:
+        fmt = make_format(f["kind"], f.get("dec", "."), f.get("ths", ""), case.get("allowed"))
+        field = construct(ctx, "C02", decl["type"], decl["empty"], decl["length"], decl["rule"], fmt)
     if field is not None and "cell" in case:
         feed(field, [case["cell"]], mon)
